@@ -8,7 +8,8 @@
         or  T|<line>|<line>|...  a whole symbol file (FUNC / STACK WIN / STACK CFI lines, ~ for space) after its MODULE line
    gp: the registers of CpuContext::REGISTERS other than ip/sp/fp/lr, in REGISTERS order
    Answer: <debug answer> ## <release answer>; an answer is  P  (panic),  OOF  (out of fuel), or frames joined by '|':
-     instr,resume,sp,fp,lr,trust,valid names joined by '+',gp values joined by '+',module index or - *)
+     instr,resume,sp,fp,lr,trust,valid names joined by '+',gp values joined by '+',module index or -,
+     function as <base>:<name> or - *)
 let name_of_z (x : z) : string =
   let rec go (v : ZA.t) acc =
     if ZA.equal v ZA.zero then acc
@@ -67,7 +68,16 @@ let fmt_frames mods ngp (fs : frame list) : string =
     String.concat "," [ string_of_z (f_instr f); string_of_z (f_resume f); string_of_z (r_sp r); string_of_z (r_fp r);
                         string_of_z (r_lr r); trust_name (int_of_z (trust_code (f_trust f))); valid;
                         (if gps = [] then "-" else String.concat "+" gps);
-                        (match frame_module mods f with Some i -> string_of_z i | None -> "-") ]) fs)
+                        (match frame_module mods f with Some i -> string_of_z i | None -> "-");
+                        (match frame_function mods f with
+                         | Some (base, name) ->
+                             let b = Buffer.create 16 in
+                             List.iter (fun (c, n) ->
+                               let ch = Char.chr (int_of_z c land 255) in
+                               let ch = if ch = ',' || ch = '|' || ch = ':' || ch = ' ' || ch = '\t' then '_' else ch in
+                               for _ = 1 to max 1 (int_of_z n) do Buffer.add_char b ch done) name;
+                             string_of_z base ^ ":" ^ Buffer.contents b
+                         | None -> "-") ]) fs)
 let () =
   try
     while true do
